@@ -1,5 +1,6 @@
 """C03 - associated data stays confidential below threshold (no keystream reuse)."""
 from .. import query as Q
+from ..terms import PHI, is_t
 from .common import S, fidx, ok_variant
 from .c02 import ONEWAY_WIRE, poly_rules, raw_nodes, secrets_of, wire_fields
 
@@ -7,7 +8,8 @@ EXPLANATION = (
     "Decided statically: (R1) the associated data reaches no wire field of a report in the clear - its only path to "
     "the wire is as data of the Strobe send_enc of the payload cipher, which covers the whole payload buffer; "
     "(R2) the payload key (and the ADSS key that protects its seed) is not contained in the clear in any wire "
-    "field, and no cipher on the wire is keyed by a value that is itself carried in the report; (R3) keystream "
+    "field, no Strobe output carried in the clear is computed by the same transcript (operation for operation over "
+    "the same data) as a key, and no cipher on the wire is keyed by a value that is itself carried in the report; (R3) keystream "
     "freshness: the transcript state at the payload send_enc must depend on something that differs between two "
     "clients reporting the same measurement (an RNG draw or the share's evaluation point) - otherwise the "
     "keystream is a deterministic function of (measurement, epoch, threshold) and c1 xor c2 = p1 xor p2 for every "
@@ -61,6 +63,51 @@ def run(ctx):
         leaked = [n for n, t in keyterms.items() if t.id in nodes]
         ctx.add("C03.R2", root + "#key-clear:" + name, not leaked,
                 "wire field `%s` carries %s in the clear: the payload can be decrypted from the report alone" % (name, leaked), at)
+    # a Strobe output carried in the clear must not be computed by the transcript that computes a key (the same
+    # operations over the same data, wherever in the code it is recomputed): it would BE the key
+    def owf_roots(t):
+        """(owf term, constant indices applied on the way): element k of a loop-built vector is a different value for
+        each k although all elements share one symbolic body"""
+        out, stack, seen = [], [(t, ())], set()
+        while stack:
+            x, ix = stack.pop()
+            if isinstance(x, (tuple, frozenset, list)):
+                stack.extend((y, ix) for y in x)
+                continue
+            if not is_t(x) or (x.id, ix) in seen:
+                continue
+            seen.add((x.id, ix))
+            if x.op == "owf":
+                out.append((x, ix))
+                continue
+            if x.op == "fold":
+                continue
+            if x.op == "phi":
+                stack.extend((y, ix) for y in (PHI.get(x.args[0]) or {}).values())
+                continue
+            if x.op == "index" and is_t(x.args[1]) and x.args[1].op == "int":
+                stack.append((x.args[0], ix + (x.args[1].args[0],)))
+                continue
+            stack.extend((y, ix) for y in Q.raw_children(x))
+        return out
+
+    def tr_key(oi):
+        o, ix = oi
+        return tuple((k, d.id if is_t(d) else repr(d)) for k, d, _ in Q.flat_ops(Q.trace_of(o.args[1]))) + (o.args[0], ix)
+    ktr = {}
+    for n, t in keyterms.items():
+        for o in owf_roots(t):
+            ktr.setdefault(tr_key(o), n)
+    same = []
+    nchk = 0
+    for name, v in sorted(wf.items()):
+        for o in owf_roots(v):
+            nchk += 1
+            if tr_key(o) in ktr:
+                same.append((name, ktr[tr_key(o)], Q.show_trace(Q.trace_of(o[0].args[1]), 2)[:160]))
+    ctx.add("C03.R2", root + "#no-wire-output-of-a-key-transcript", not same and nchk > 0,
+            "a value carried in the clear is the output of the very Strobe transcript that yields a key (field, key, transcript): %s" % same, at,
+            sample={"wire_strobe_outputs_compared": nchk, "key_transcripts": len(ktr)})
     # no cipher on the wire is keyed by something raw on the wire
     allraw = set()
     for v in wf.values():
@@ -73,7 +120,7 @@ def run(ctx):
                     bad.append((name, S(d, 3)))
     ctx.add("C03.R2", root + "#cipher-keys-not-on-wire", not bad,
             "a cipher whose output is on the wire is keyed by a value that is itself carried in the report: %s" % bad, at)
-    ctx.floor("C03.R2", 8)
+    ctx.floor("C03.R2", 9)
 
     # ---- R3: keystream freshness (known finding on the pinned tree) ------------------------------------------
     if whole:
